@@ -120,6 +120,8 @@ class FakeApp:
         key = repr(q)
         n = self.counts.get(key, 0)
         self.counts[key] = n + 1
+        if len(self.trace) > 3000:        # a mutated fetcher that never gives up must not hang the check
+            raise RuntimeError('runaway fetch: more than 3000 events')
         r = self.answer(q, n)
         self.trace.append(['ask', q, r, n])
 
@@ -347,6 +349,18 @@ def fates_from(losses, faults=None):
     return f
 
 
+class Runaway(Exception):
+    pass
+
+
+def runaway(ctx, case):
+    ctx.violation('segment_fetcher.retry', 'runaway', 'more than 3000 Interests/contents for one fetch: the fetcher does not give up', case)
+    ctx.case(repr(case), True, None, 'runaway')
+    ctx.stat('runaway')
+    if ctx.stats['runaway'] >= 10:
+        raise Runaway()
+
+
 # ---- stream A -------------------------------------------------------------------------------------------
 def run_scenario(ctx, loop, s, retry, lifetime, mbf, how, stratum):
     M = ctx.call
@@ -375,6 +389,9 @@ def run_scenario(ctx, loop, s, retry, lifetime, mbf, how, stratum):
     trace, ending, app = run_impl(loop, answer, name_arg, kw, as_view=(how == 1))
     case = {'scenario': s, 'retry_times': retry, 'timeout': lifetime, 'must_be_fresh': mbf, 'call_style': how}
     cfg = [retry, lifetime, int(mbf)]
+    if len(trace) > 3000:
+        runaway(ctx, case)
+        return
     es = enc_scn(s)
     # the Python producer is the specification's producer
     for t in trace:
@@ -530,6 +547,10 @@ def stream_b(ctx, loop):
                 table.setdefault(repr(t[1]), [t[1], []])[1].append(t[2])
         tb = [[enc_req(q), [enc_resp(r) for r in rs], [0, [0]]] for q, rs in table.values()]
         case = {'prefix': prefix, 'retry_times': retry, 'timeout': lifetime, 'must_be_fresh': mbf, 'table': tb}
+        if len(trace) > 3000:
+            case['table'] = 'omitted'
+            runaway(ctx, case)
+            continue
         m = M([1, [retry, lifetime, int(mbf)], FUEL, prefix, tb])
         mev, mend = norm(m[0]), dec_ending(m[1])
         iev = impl_events(trace)
@@ -547,5 +568,10 @@ def run(ctx):
     try:
         stream_a(ctx, loop)
         stream_b(ctx, loop)
+    except Runaway:
+        ctx.notes.append('stopped early: the fetcher under test does not terminate on lost Interests')
+        return
     finally:
         loop.close()
+    from harness.props import c19_app
+    c19_app.stream_c(ctx)
